@@ -230,7 +230,7 @@ theorem duo_claimant {cfg : Cfg} {G : Nat} {n : Net} {x y : Nat} {stx sty : NetS
   have hsy : ({ n.bus with seen := n.bus.seen.set x now } : Bus).seen.getD y 0 = n.bus.seen.getD y 0 :=
     seen_set_other n.bus x y now hxy
   unfold FormOut at hout
-  rcases hout with ⟨a1, a2, -⟩ | ⟨stage', l', hS, hs', hv', hp', htxi, hB', hΦ, hnl⟩
+  rcases hout with ⟨a1, a2, -⟩ | ⟨stage', l', hS, hs', hv', hp', htxi, hB', hΦ, hnl, hk2, htok, hpbq⟩
   · exact .inl ⟨a1, a2⟩
   have haddr : (upSt stx c).s.p.address = stx.s.p.address := by show c.s.p.address = _; rw [hp']
   have hhsa : (upSt stx c).s.p.hsa = stx.s.p.hsa := by show c.s.p.hsa = _; rw [hp']
